@@ -125,6 +125,8 @@ def handle (j : Json) : Except String Json := do
                        ("spec_adp", Json.arr ((specAdpLoop atoms).map adpJson).toArray)]
   | "repr" =>
     return Json.arr (reprTable.map fun (k, s) => Json.arr #[ofInt k, Json.str s]).toArray
+  | "doubles" =>
+    return Json.arr (doubleTable.map fun (k, n, d) => Json.arr #[ofInt k, Json.str (toString n), Json.str (toString d)]).toArray
   | _ => err s!"C18: unknown op {op}"
 
 end Shelx.Drv.C18
